@@ -98,6 +98,18 @@ func checkC12(p *Prog, l *Ledger) {
 	if !bad {
 		l.Discharge("C12/S3-reference-semantics", "value-paths", "", "no object is iterated or copied by eval, Function.Call or the environment", true)
 	}
+	// a literal yields its listed properties whatever they are called: the functions that parse object syntax reject
+	// nothing of their own (C08's filter rule, restricted to them) — a refused property name is a literal that yields
+	// no object at all, and makes `{k: v}` and `o.k = v` disagree
+	pi := getParser(p)
+	l.AsOnlyWhere(map[string]string{"C08/S3-filters": "C12/S0-literal-accepted"}, func(o *Obligation) bool {
+		for _, f := range []string{"parser.objectLiteral", "parser.call", "parser.primary"} {
+			if strings.HasPrefix(o.Construct, f+"#") {
+				return true
+			}
+		}
+		return false
+	}, func() { checkSemanticFilters(p, l, pi) })
 }
 
 // checkListing: keys and values derive their order from one source.
